@@ -17,6 +17,7 @@ from .. import astutil as au
 from .. import linforms as lf
 from ..tables import rule
 from . import analysis
+from ..carriers import local_roles, role
 
 rule("C05.a", "every parameter that enters the level model as offset or coefficient (start_level, eff_in, inflow) is read by "
               "Storage.fill_level", floor=3)
@@ -155,7 +156,7 @@ def run(ctx):
                 and st.targets[0].id == st.value.args[0].elts[0].id:
             # paired with cType = 'U'*n + 'L'*n nearby
             for st2 in setup.body[i: i + 4]:
-                if isinstance(st2, ast.Assign) and au.terminal(st2.targets[0]) == "cType":
+                if isinstance(st2, ast.Assign) and role(st2.targets[0], local_roles(setup)) == "cType":
                     letters = [au.const_str(x) for x in au.walk_local(st2.value) if au.const_str(x)]
                     if letters[:2] in (["U", "L"], ["L", "U"]):
                         hst = (st, letters[0] == "U")
